@@ -288,6 +288,94 @@ func TestC14(t *testing.T) {
 		}
 	}
 
+	// ---- (2b) origin placeholders of every small size: the trampoline must fit or the apply be refused
+	{
+		sizes := []int{}
+		for sz := 14; sz <= 56; sz++ {
+			sizes = append(sizes, sz)
+		}
+		ntg := 10
+		if light {
+			sizes, ntg = []int{18, 24, 25, 32, 40}, 3
+		}
+		const slot = 128
+		for _, near := range []bool{true, false} {
+			need := len(sizes) * ntg * slot
+			var pbase uintptr
+			var pmem []byte
+			if near {
+				_, hi := img.Bounds()
+				hint := (hi + 64<<20) &^ (c14Page - 1)
+				r, _, e := syscall.Syscall6(syscall.SYS_MMAP, hint, uintptr(need), syscall.PROT_READ|syscall.PROT_WRITE|syscall.PROT_EXEC,
+					syscall.MAP_PRIVATE|syscall.MAP_ANON, ^uintptr(0), 0)
+				if e != 0 || r > hi+1<<30 {
+					rep.Note("placeholder-near", "could not map placeholders within 1 GiB of the text segment")
+					continue
+				}
+				pbase, pmem = r, unsafe.Slice((*byte)(unsafe.Pointer(r)), need)
+			} else {
+				pbase, pmem = c14Map((need + c14Page - 1) / c14Page)
+			}
+			idx := 0
+			for ti := 0; ti < ntg; ti++ {
+				tf := idle[(start+ti*37)%len(idle)]
+				for _, sz := range sizes {
+					off := idx * slot
+					idx++
+					c14Fresh(pmem) // goom leaves the pages it wrote r-x: make the mapping writable again (no mprotect call)
+					region := pmem[off : off+slot]
+					for i := range region {
+						region[i] = 0xCC
+					}
+					for i := 0; i < sz-1; i++ {
+						region[i] = 0x90
+					}
+					region[sz-1] = 0xC3
+					nb := append(append([]byte{}, c14prologue...), 0x90, 0xB8, 0x11, 0x22, 0x33, 0x00, 0xC3)
+					copy(region[sz:], nb)
+					shadow := append([]byte{}, region...)
+					phAddr := pbase + uintptr(off)
+					fv := &struct{ pc uintptr }{phAddr}
+					phFunc := *(*func())(unsafe.Pointer(&fv))
+					rep.Journal(map[string]interface{}{"part": "placeholder-size", "target": tf.Name, "size": sz, "near": near})
+					var perr error
+					func() {
+						defer func() {
+							if r := recover(); r != nil {
+								perr = fmt.Errorf("panic: %v", r)
+							}
+						}()
+						_, perr = PtrTrampoline(tf.Entry, c14Repl, phFunc)
+					}()
+					c14ForgetPatch(tf.Entry)
+					rep.Eval(1)
+					if d := img.Diff(); len(d) != 0 {
+						rep.Violate("C14/target-written-without-apply", fmt.Sprintf("%s: %v", tf.Name, d), nil)
+					}
+					changedBeyond := -1
+					for i := sz; i < slot; i++ {
+						if region[i] != shadow[i] {
+							changedBeyond = i
+							break
+						}
+					}
+					outcome := "fits"
+					if perr != nil {
+						outcome = "refused"
+						if !bytes.Equal(region, shadow) {
+							rep.Violate("C14/refused-but-placeholder-modified", fmt.Sprintf("placeholder of %d bytes for %s refused (%v) but bytes changed", sz, tf.Name, perr), nil)
+						}
+					} else if changedBeyond >= 0 {
+						rep.Violate("C14/placeholder-overrun", fmt.Sprintf("origin placeholder of %d bytes for %s (near=%v): byte %d beyond the placeholder (the next function) was overwritten", sz, tf.Name, near, changedBeyond),
+							map[string]interface{}{"placeholder_size": sz, "target": tf.Name, "near": near})
+					}
+					rep.Class(fmt.Sprintf("placeholder/near=%v/%s", near, outcome))
+					rep.Stat("placeholder_cases:"+outcome, 1)
+				}
+			}
+		}
+	}
+
 	// ---- (3) WriteTo sweeps across page boundaries of a 4-page mapping
 	lens := []int{}
 	for l := 1; l <= 80; l++ {
